@@ -261,7 +261,11 @@ func main() {
 	}
 	if raceS > 0 {
 		build(scratch, true)
-		raceOuts = runWorkers(filepath.Join(scratch, "harness.race.test"), prop, tier, seed+1, nw, raceS*1000, raceEnv(scratch), scratch)
+		renv := raceEnv(scratch)
+		if b := raceBorrow[prop]; b != "" {
+			renv = append(renv, "VERIF_GEN_FROM="+b)
+		}
+		raceOuts = runWorkers(filepath.Join(scratch, "harness.race.test"), prop, tier, seed+1, nw, raceS*1000, renv, scratch)
 	}
 	detSample = determinismSample(bin, prop, scratch)
 	finish(prop, tier, seed, nw, append(outs, raceOuts...), len(raceOuts), start, buildS, scratch)
@@ -308,6 +312,14 @@ func determinismSample(bin, prop, scratch string) string {
 // properties whose statement includes "without data races": part of the budget
 // is spent on the same search under a -race build
 var raceProps = map[string]bool{"C06": true, "C09": true, "C14": true}
+
+// workloads the race slice of a property cycles through (its own first): C09's
+// clause is about "all of the scope API, recording and reporting", C14's about
+// every call order on the M3 reporter
+var raceBorrow = map[string]string{
+	"C09": "C09,C07,C09,C08,C09,C01,C09,C02,C09,C11,C09,C10",
+	"C14": "C14,C13,C14,C12",
+}
 
 func raceEnv(scratch string) []string {
 	prefix := filepath.Join(scratch, "race")
